@@ -25,6 +25,7 @@ func run() int {
 	verif := flag.String("verif", "", "verif directory (default: cwd)")
 	all := flag.Bool("all", false, "run all registered properties")
 	list := flag.Bool("list", false, "list registered properties and rules")
+	listJSON := flag.Bool("list-json", false, "dump registered properties with their manifest texts as JSON")
 	replay := flag.String("replay", "", "re-run the property named in a violations file and print the diagnosis")
 	noEvidence := flag.Bool("no-evidence", false, "do not write evidence files (used when analysing scratch copies)")
 	verbose := flag.Bool("v", false, "print every obligation")
@@ -42,6 +43,27 @@ func run() int {
 	}
 	seed, _ := strconv.Atoi(os.Getenv("VERIF_SEED"))
 
+	if *listJSON {
+		out := []map[string]any{}
+		for _, id := range check.PropertyIDs() {
+			p := check.Lookup(id)
+			rules := []string{}
+			for _, r := range p.Rules {
+				rules = append(rules, r.ID)
+			}
+			for _, r := range p.ThoroughRules {
+				rules = append(rules, r.ID+" (thorough)")
+			}
+			text := p.LevelText
+			if text == "" {
+				text = p.Explanation
+			}
+			out = append(out, map[string]any{"id": id, "text": text, "not_decided": p.NotDecided, "note": p.LevelNote, "technique": p.Technique, "design_ref": p.DesignRef, "rules": rules, "assumptions": p.Assumptions})
+		}
+		b, _ := json.MarshalIndent(out, "", " ")
+		fmt.Println(string(b))
+		return 0
+	}
 	if *list {
 		for _, id := range check.PropertyIDs() {
 			p := check.Lookup(id)
